@@ -1338,6 +1338,14 @@ func decorations(r *ev.Run, G *gprops, gs *gstats, vers []int) {
 				}
 				n++
 			}
+			// the whole vector wrapped the way documents and feeds write it (round 5, C08-B-r5: one
+			// enclosing pair of parentheses stripped before parsing)
+			for _, w := range [][2]string{{"(", ")"}, {"[", "]"}, {"{", "}"}, {"<", ">"}, {"\"", "\""}, {"'", "'"}, {"`", "`"}, {"((", "))"}, {"( ", " )"}, {"(", ")."}, {"CVSS2#", ""}, {"cvss:", ""}, {"CVSS:2.0/", ""}, {"vector=", ""}, {"", ";"}, {"", ","}, {"", "."}, {"", "/"}, {"/", ""}, {"#", ""}, {"\u300c", "\u300d"}, {"\uff08", "\uff09"}} {
+				for lv := 0; lv < 3; lv++ {
+					judge(r, G, gs, ver, lv, w[0]+seed+w[1])
+				}
+				n++
+			}
 		}
 		valid := seeds(ver)[0]
 		fillers := []string{"日", "é", "\U0001d11e", "\u200b"}
